@@ -56,6 +56,26 @@ def run(ctx, replay=None):
                             runs += 1
                         except Exception as e:
                             ctx.count('option_rejected', '%s:%s' % (type(e).__name__, str(e)[:30]))
+            # observation coordinates handed over with an integer dtype (raster indices): fractional targets as arrays
+            c_ = np.array(s['coords'], float)
+            if np.all(c_ == np.round(c_)) and not s.get('mkw'):
+                try:
+                    Tf = T + 0.375
+                    okf, _ = kc.make_ok(s, V=V)
+                    zf = np.asarray(okf.transform(*[Tf[:, d] for d in range(dim)]), float)
+                    sf = np.asarray(okf.sigma, float).copy()
+                    oki, _ = kc.make_ok(s, V=V, coordinates=c_.astype('int64'), values=np.array(s['values'], float))
+                    zi = np.asarray(oki.transform(*[Tf[:, d] for d in range(dim)]), float)
+                    si = np.asarray(oki.sigma, float)
+                    for i in range(len(zf)):
+                        if not (gen.close(zi[i], zf[i], 1e-6, 1e-7) and gen.close(si[i], sf[i], 1e-6, 1e-7)):
+                            ctx.problem('oracle', 'result depends on the dtype of the observation coordinates (int64 vs float64, fractional array targets)', s,
+                                        {'position': i, 'target': Tf[i].tolist(), 'int_coords': [float(zi[i]), float(si[i])], 'float_coords': [float(zf[i]), float(sf[i])]}, {'what': 'coordinate-dtype'})
+                            break
+                    runs += 1
+                    ctx.count('integer_coordinate_runs', True)
+                except Exception as e:
+                    ctx.count('integer_coords_rejected', type(e).__name__)
             # batches, permutations, repeated calls on ONE instance
             ok, _ = kc.make_ok(s, V=V)
             k = rng.randint(1, len(T) - 1)
